@@ -131,6 +131,11 @@ class TInd(ciw.Individual):
     def __setattr__(s, k, v):
         if k == 'service_start_date' and v is not False and OBS.on:
             _on_start(s, v)
+        elif k == 'service_end_date' and v is not False and OBS.on:
+            try:
+                OBS.ev('EndSet', s.id_number, tk(v))
+            except Inexact:
+                OBS.ev('EndSet', s.id_number, None)
         object.__setattr__(s, k, v)
 
 
